@@ -1338,6 +1338,12 @@ class Interp:
     def binop(self, op, a, b):
         if isinstance(a, MaybeNone) or isinstance(b, MaybeNone):
             raise CannotEncode('arithmetic on Optional')
+        from .models import IndexArrayM as _IA
+        if isinstance(a, _IA) or isinstance(b, _IA):
+            r = self.models.binop(op, a, b)
+            if r is UNSET:
+                raise CannotEncode('arithmetic on an index array')
+            return r
         if isinstance(a, CVal) or isinstance(b, CVal):
             return self.c_binop(op, self.as_c_operand(a), self.as_c_operand(b))
         if isinstance(a, SInt) or isinstance(b, SInt) or (is_sym(a) and z3.is_bool(a)) or (is_sym(b) and z3.is_bool(b)):
